@@ -25,6 +25,11 @@ def setup_path():
 
 setup_path()
 
+if os.environ.get("VERIF_VSET") == "1":
+    # E3: load the library through the set-order instrumentation (mc/vset.py)
+    from . import vset as _vset
+    _vset.install(REPO)
+
 import json_to_models  # noqa: E402
 
 if not os.path.abspath(json_to_models.__file__).startswith(os.path.abspath(REPO) + os.sep):
